@@ -70,3 +70,116 @@ let () = Reg.register "c29.cancel" (fun inp out ->
   | _ -> failwith "c29.cancel")
 
 let () = Reg.register "c29.nocompile" (fun _ _ -> (A "compiles", "ok"))
+
+(* ---------------- parsers with runtime lookaheads (Gram/CancelLA.v) ---------------- *)
+
+type run_out = { r_res : string list; r_polls : bool list; r_depths : int list; r_evs : sexp list; r_at : int; r_after : int }
+
+let parse_run x = match x with
+  | L (A r :: rest) ->
+    let rec split acc = function
+      | [L (A "polls" :: polls); L (A "depths" :: depths); L (A "events" :: evs); L [A "cancel"; a; b]] ->
+        { r_res = Stdlib.List.rev acc; r_polls = Stdlib.List.map (fun p -> atom p = "1") polls;
+          r_depths = Stdlib.List.map get_int depths; r_evs = evs; r_at = get_int a; r_after = get_int b }
+      | A s :: tl -> split (s :: acc) tl
+      | _ -> failwith "c29 run" in
+    split [r] rest
+  | _ -> failwith "c29 run"
+
+let rec take k l = if k <= 0 then [] else match l with [] -> [] | x :: r -> x :: take (k - 1) r
+let rec first_true k = function [] -> -1 | b :: r -> if b then k else first_true (k + 1) r
+let ev_end e = match e with L [_; _; c] -> get_int c | _ -> failwith "event"
+
+(* The property, judged on the implementation's own answers: [runs] = the uncancelled run followed by cancelled runs
+   of the same parser on the same input.  tok_offs = start offsets of the input's tokens (for the distance bound of
+   listener-driven cancellations).  min_polls = lower bound of the number of polls of the uncancelled run. *)
+let judge (runs : run_out list) (tok_offs : int array) : string =
+  let base = Stdlib.List.hd runs in
+  let nb = Stdlib.List.length base.r_polls in
+  let verdict = ref "ok" in
+  let bad s = if !verdict = "ok" then verdict := "bad:" ^ s in
+  if Stdlib.List.exists (fun b -> b) base.r_polls || base.r_res = ["ctxerr"] then bad "uncancelled-run-sees-a-done-context";
+  (* every 512 shifts one poll: the main loop alone shifts every token once (a lower bound of the shared counter) *)
+  (match base.r_res with
+   | ["accept"] -> if nb < (Stdlib.Array.length tok_offs + 1) / 512 then bad "fewer-polls-than-one-per-512-shifted-tokens"
+   | _ -> ());
+  Stdlib.List.iteri (fun idx r -> if idx > 0 then begin
+    let np = Stdlib.List.length r.r_polls in
+    let ft = first_true 0 r.r_polls in
+    if r.r_res = ["ctxerr"] then begin
+      if not (is_prefix r.r_evs base.r_evs) then bad "events-before-cancellation-are-not-a-prefix-of-the-uncancelled-events"
+      else if ft < 0 || ft <> np - 1 then bad "context-error-without-a-done-poll-or-after-continuing-past-one"
+      else if np > nb || take np r.r_depths <> take np base.r_depths then bad "poll-schedule-differs-from-the-uncancelled-run"
+    end else begin
+      if ft >= 0 then bad "parse-continued-after-polling-a-done-context"
+      else if r.r_res <> base.r_res || r.r_evs <> base.r_evs then bad "result-differs-from-the-uncancelled-parse"
+      else if r.r_depths <> base.r_depths then bad "poll-schedule-differs-from-the-uncancelled-run"
+    end;
+    (* cancelled before poll j: the parse must stop exactly there if the uncancelled run reaches that poll *)
+    if r.r_at > 0 && r.r_at <= nb && (r.r_res <> ["ctxerr"] || np <> r.r_at) then bad "cancelled-before-a-poll-but-the-parse-went-on";
+    (* cancelled by the listener during event k: every token reported afterwards was shifted after the cancellation *)
+    if r.r_after > 0 && Stdlib.List.length r.r_evs >= r.r_after then begin
+      let evs = Stdlib.Array.of_list r.r_evs in
+      let c_off = ev_end evs.(r.r_after - 1) in
+      let last = ref c_off in
+      Stdlib.Array.iteri (fun i e -> if i >= r.r_after && ev_end e > !last then last := ev_end e) evs;
+      let cnt = ref 0 in
+      Stdlib.Array.iter (fun o -> if o >= c_off && o < !last then incr cnt) tok_offs;
+      if !cnt > 512 then bad "more-than-512-tokens-shifted-after-the-cancellation"
+    end
+  end) runs;
+  !verdict
+
+let put_run res polls depths evs r =
+  L (res @ [L (A "polls" :: polls); L (A "depths" :: depths); L (A "events" :: evs); L [A "cancel"; put_int r.r_at; put_int r.r_after]])
+
+let () = Reg.register "c29.look" (fun inp out ->
+  match lst inp with
+  | [gtm; tables; evt; las; recursive; len; toks] ->
+    let gtm = P_c03.get_grammar gtm in
+    let ((enc, opt, _, _, finals, _) as t) = P_c01.get_tables tables in
+    let m = P_c01.machine_of gtm.Cfg.g_terms t in
+    let attempts = (match opt with Some o -> Cancel.attempts_opt o | None -> Cancel.attempts_default enc) in
+    let evt = P_c02.get_ev_table evt in
+    let finals_a = Stdlib.Array.of_list finals in
+    let las = Stdlib.List.map (fun x -> match lst x with
+      | [r; cases; d] ->
+        (get_int r, { CancelLA.lr_cases = get_list (fun c -> match lst c with
+            | [i; n; tg] -> { CancelLA.lc_input = get_z i; lc_negated = get_bool n; lc_target = get_z tg }
+            | _ -> failwith "case") cases; lr_default = get_z d })
+      | _ -> failwith "la rule") (lst las) in
+    let lt = { CancelLA.lt_rule = (fun r -> Stdlib.List.assoc_opt (int_of_z r) las);
+               lt_final = (fun i -> let k = int_of_z i in if k >= 0 && k < Stdlib.Array.length finals_a then finals_a.(k) else z_of_int (-7));
+               lt_recursive = get_bool recursive; lt_depth = nat_of_int 0 } in
+    let toks = get_list (fun t -> let (a, b, c) = P_c02.get_triple t in { t_sym = get_z a; t_off = get_z b; t_end = get_z c }) toks in
+    let tok_offs = Stdlib.Array.of_list (Stdlib.List.map (fun t -> int_of_z t.t_off) toks) in
+    let eoi_off = get_z len in
+    let n = Stdlib.List.length toks in
+    let fuel = nat_of_int (40 * n + 400) in
+    let runs = Stdlib.List.map parse_run (lst out) in
+    let model = Stdlib.List.map (fun r ->
+      let polls_a = Stdlib.Array.of_list r.r_polls in
+      let rho nn = let k = int_of_z nn / 512 - 1 in k >= 0 && k < Stdlib.Array.length polls_a && polls_a.(k) in
+      let ((oc, c), s) = CancelLA.lrun m lt attempts eoi_off rho fuel fuel evt false (z_of_int 0) finals_a.(0) toks in
+      let mres = (match oc with
+        | CtxErr -> [A "ctxerr"]
+        | Plain Accept -> [A "accept"]
+        | Plain (SyntaxError (o, e, _)) -> [A "syntax"; put_z o; put_z e]
+        | Plain _ -> [A "other"]) in
+      let depths = Stdlib.List.rev (CancelLA.poll_depths s) in
+      let mpolls = Stdlib.List.mapi (fun k _ -> A (if k < Stdlib.Array.length polls_a && polls_a.(k) then "1" else "0")) depths in
+      put_run mres mpolls (Stdlib.List.map put_z depths)
+        (Stdlib.List.map (fun ((t, o), e) -> L [put_z t; put_z o; put_z e]) c.CancelLA.lc_x.xc_events) r) runs in
+    (L model, judge runs tok_offs)
+  | _ -> failwith "c29.look")
+
+(* the shipped js, tm and test parsers: oracle only (their tables are not run through the model) *)
+let shipped inp out =
+  match lst inp with
+  | _ :: offs :: _ ->
+    let tok_offs = Stdlib.Array.of_list (get_list get_int offs) in
+    let runs = Stdlib.List.map parse_run (lst out) in
+    (out, judge runs tok_offs)
+  | _ -> failwith "c29.shipped"
+let () = Reg.register "c29.js" shipped
+let () = Reg.register "c29.shipped" shipped
